@@ -54,6 +54,12 @@ PROFILES = [
     dict(cols="nn", x0="nan"),
     dict(cols="nn", max_iter_default=True, set_max_cg=14, tol=1e-3),
     dict(cols="nn", max_iter_default=True, set_max_cg=25, set_max_lq=4, n_tridiag=1, set_tol=1e-2),
+    # columns that freeze (residual < stop_updating_after) while p^T A p is still far above eps, and a tolerance the mean
+    # never reaches: the has_converged mask of lines 74 / 260 is then the only thing that keeps them frozen
+    dict(cols="nn", stop=1e-3, tol=1e-6, pre="jacobi"),
+    dict(cols="nnn", stop=1e-2, tol=1e-7, pre="lowrank", batch=[2]),
+    dict(cols="nn", stop=1e-3, tol=1e-6),
+    dict(cols="nn", stop=1e-2, tol=1e-7, pre="randspd", n_tridiag=2, max_tridiag_iter="="),
 ]
 
 # closure-aliasing cells (identity-like closures: legitimate only for the identity matrix / identical batch members)
